@@ -43,7 +43,7 @@ struct Routine {
   int share = 0;  // > 0: routines with equal share id are textually identical and live in one file included repeatedly
 };
 
-enum MacroFamily { MF_CALL = 1, MF_NOP = 2, MF_SWAP = 4, MF_ITE = 8 };
+enum MacroFamily { MF_CALL = 1, MF_NOP = 2, MF_SWAP = 4, MF_ITE = 8, MF_NONLR = 16 /* a definition the compiler must reject: pattern ends in <P> */ };
 
 struct Ast {
   std::vector<Routine> defs;
